@@ -36,3 +36,56 @@ func VerifNielsSlidingMultiple(i int) VerifNiels {
 func VerifConstants() (d, d2, sqrtm1 curve25519.Bignum25519) {
 	return ecd, ec2d, sqrtNeg1
 }
+
+// VerifPniels mirrors ge25519pniels for harnesses.
+type VerifPniels struct {
+	YsubX, XaddY, Z, T2d curve25519.Bignum25519
+}
+
+func (q *VerifNiels) in() *ge25519niels {
+	return &ge25519niels{ysubx: q.YsubX, xaddy: q.XaddY, t2d: q.T2d}
+}
+
+func (q *VerifPniels) in() *ge25519pniels {
+	return &ge25519pniels{ysubx: q.YsubX, xaddy: q.XaddY, z: q.Z, t2d: q.T2d}
+}
+
+func (q *VerifPniels) out(t *ge25519pniels) {
+	q.YsubX, q.XaddY, q.Z, q.T2d = t.ysubx, t.xaddy, t.z, t.t2d
+}
+
+// The unexported point formulas, for coordinate-level conformance checks.
+
+func VerifFullToPniels(out *VerifPniels, p *Ge25519) {
+	var t ge25519pniels
+	fullToPniels(&t, p)
+	out.out(&t)
+}
+
+func VerifNielsAdd2(r *Ge25519, q *VerifNiels) { nielsAdd2(r, q.in()) }
+
+func VerifPnielsAdd(out *VerifPniels, p *Ge25519, q *VerifPniels) {
+	var t ge25519pniels
+	pnielsAdd(&t, p, q.in())
+	out.out(&t)
+}
+
+// VerifMixedAddFull is nielsAdd2P1p1Vartime (qp == nil) or pnielsAddP1P1Vartime followed by p1p1ToFull.
+func VerifMixedAddFull(r, p *Ge25519, qn *VerifNiels, qp *VerifPniels, signbit uint8) {
+	var t ge25519p1p1
+	if qp == nil {
+		nielsAdd2P1p1Vartime(&t, p, qn.in(), signbit)
+	} else {
+		pnielsAddP1P1Vartime(&t, p, qp.in(), signbit)
+	}
+	p1p1ToFull(r, &t)
+}
+
+func VerifDoublePartial(r, p *Ge25519) { doublePartial(r, p) }
+
+// VerifGeSubFull is geSub followed by p1p1ToFull.
+func VerifGeSubFull(r, p *Ge25519, q *VerifPniels) {
+	var t ge25519p1p1
+	geSub(&t, p, q.in())
+	p1p1ToFull(r, &t)
+}
